@@ -8,6 +8,7 @@ Harness ops (JSON lists):
   ['write', side, cidx, nbytes]
   ['global'] ['conn_close', side] ['conn_abort', side] ['conn_wait', side]
   ['deliver', side]      next queued transport write of `side` is delivered to its peer
+  ['deliver_all', side]  everything `side` has queued is delivered (what TCP does before an EOF)
   ['cut']                the link is cut (both transports report connection_lost)
   ['settle']             the event loop runs until nothing is ready (bounded number of turns)
 `cidx` is the ordinal of the 'open' op; the server's index of the same channel may differ.
@@ -249,7 +250,7 @@ class Sim:
             def factory(rec=rec, keep_c=keep_c):
                 rec['sess'] = self.CliSess(keep_c, self.hw)
                 return rec['sess']
-            rec['task'] = asyncio.ensure_future(self.cconn.create_session(
+            rec['task'] = _spawn(self.cconn.create_session(
                 factory, term_type=('ansi' if pty else None), window=self.W, max_pktsize=self.pktsize,
                 encoding=None))
             self.cch.append(rec)
@@ -278,13 +279,13 @@ class Sim:
                     ch.resume_reading()
                     T[side].append(f'LResume {li}')
                 elif k == 'wait_closed':
-                    rec['wc'].append(asyncio.ensure_future(ch.wait_closed()))
+                    rec['wc'].append(_spawn(ch.wait_closed()))
                     T[side].append(f'LWaitClosed {li}')
                 elif k == 'read':
-                    rec['rd'].append(asyncio.ensure_future(asyncssh.SSHReader(se, ch).read(65536)))
+                    rec['rd'].append(_spawn(asyncssh.SSHReader(se, ch).read(65536)))
                     T[side].append(f'LRead {li}')
                 elif k == 'drain':
-                    rec['dr'].append(asyncio.ensure_future(asyncssh.SSHWriter(se, ch).drain()))
+                    rec['dr'].append(_spawn(asyncssh.SSHWriter(se, ch).drain()))
                     T[side].append(f'LDrain {li}')
                 elif k == 'write':
                     try:
@@ -295,7 +296,7 @@ class Sim:
             except (OSError, asyncssh.Error) as e:      # pragma: no cover
                 self.errors.append(f'{k}: {e!r}')
         elif k == 'global':
-            self.gfuts.append(asyncio.ensure_future(
+            self.gfuts.append(_spawn(
                 self.cconn.forward_remote_port('', 7000 + len(self.gfuts), 'localhost', 7)))
             # the coroutine only runs at the next loop turn; callers settle right after this op
             T['c'].append('LGlobal')
@@ -306,10 +307,13 @@ class Sim:
             self.conn[op[1]].abort()
             T[op[1]].append('LConnAbort')
         elif k == 'conn_wait':
-            self.cwait[op[1]].append(asyncio.ensure_future(self.conn[op[1]].wait_closed()))
+            self.cwait[op[1]].append(_spawn(self.conn[op[1]].wait_closed()))
             T[op[1]].append('LConnWaitClosed')
         elif k == 'deliver':
             self._deliver(op[1])
+        elif k == 'deliver_all':
+            while self.wire.q[op[1]] and not self.wire.lost['c' if op[1] == 's' else 's']:
+                self._deliver(op[1])
         elif k == 'cut':
             for s in 'cs':
                 self.saved_meta[s] += list(self.wire.delivered_meta[s]) + list(self.wire.meta[s])
@@ -525,3 +529,15 @@ class Sim:
 
 def cb(b):
     return 'true' if b else 'false'
+
+
+def _retrieve(f):
+    if not f.cancelled():
+        f.exception()
+
+
+def _spawn(coro):
+    """task whose exception (the normal outcome of many calls here) is always retrieved"""
+    f = asyncio.ensure_future(coro)
+    f.add_done_callback(_retrieve)
+    return f
